@@ -330,20 +330,23 @@ structure RtStep (k : Key) (n n' : Node) : Prop where
   only : OnlyKey k n n'
   item : ∀ it, n.store.get k = some it → ∃ it', n'.store.get k = some it' ∧ it'.bundle = it.bundle ∧
     it'.expires = it.expires ∧ it'.cons = it.cons ∧ it'.receiver = it.receiver ∧
-    (it.pending = true → it'.pending = true)
+    (it.pending = true → it'.pending = true) ∧
+    -- `routing/epidemic/destination`, once written, is never changed
+    (∀ e, it.rt.epiDst = some e → it'.rt.epiDst = some e)
   absent : n.store.get k = none → n'.store.get k = none
   keys : n'.store.keys = n.store.keys
   idk : n'.idk = n.idk
 
 theorem RtStep.refl (k : Key) (n : Node) : RtStep k n n :=
-  ⟨OnlyKey.refl k n, fun it h => ⟨it, h, rfl, rfl, rfl, rfl, id⟩, id, rfl, rfl⟩
+  ⟨OnlyKey.refl k n, fun it h => ⟨it, h, rfl, rfl, rfl, rfl, id, fun _ h => h⟩, id, rfl, rfl⟩
 
 theorem RtStep.trans {k : Key} {a b c : Node} (h1 : RtStep k a b) (h2 : RtStep k b c) : RtStep k a c := by
   refine ⟨h1.only.trans h2.only, ?_, fun h => h2.absent (h1.absent h), h2.keys.trans h1.keys, h2.idk.trans h1.idk⟩
   intro it h
-  rcases h1.item it h with ⟨it1, g1, b1, e1, c1, r1, p1⟩
-  rcases h2.item it1 g1 with ⟨it2, g2, b2, e2, c2, r2, p2⟩
-  exact ⟨it2, g2, b2.trans b1, e2.trans e1, c2.trans c1, r2.trans r1, fun hp => p2 (p1 hp)⟩
+  rcases h1.item it h with ⟨it1, g1, b1, e1, c1, r1, p1, d1⟩
+  rcases h2.item it1 g1 with ⟨it2, g2, b2, e2, c2, r2, p2, d2⟩
+  exact ⟨it2, g2, b2.trans b1, e2.trans e1, c2.trans c1, r2.trans r1, fun hp => p2 (p1 hp),
+    fun e he => d2 e (d1 e he)⟩
 
 /-- A step that only touches key `k` and keeps the store well-formed. -/
 structure KStep (k : Key) (n n' : Node) : Prop where
@@ -422,11 +425,13 @@ theorem sync_kstep (d : Desc) (n : Node) (hb : ∀ b, d.bndl = some b → b.key 
 
 theorem rtStep_modItem (k : Key) (f : Item → Item) (n : Node)
     (hf : ∀ it, (f it).bundle = it.bundle ∧ (f it).expires = it.expires ∧ (f it).cons = it.cons ∧
-      (f it).receiver = it.receiver ∧ (it.pending = true → (f it).pending = true)) :
+      (f it).receiver = it.receiver ∧ (it.pending = true → (f it).pending = true) ∧
+      (∀ e, it.rt.epiDst = some e → (f it).rt.epiDst = some e)) :
     RtStep k n (modItem k f n) := by
   refine ⟨modItem_only k f n, ?_, ?_, ?_, ?_⟩
   · intro it h
-    refine ⟨f it, by simp [modItem_get, h], (hf it).1, (hf it).2.1, (hf it).2.2.1, (hf it).2.2.2.1, (hf it).2.2.2.2⟩
+    refine ⟨f it, by simp [modItem_get, h], (hf it).1, (hf it).2.1, (hf it).2.2.1, (hf it).2.2.2.1,
+      (hf it).2.2.2.2.1, (hf it).2.2.2.2.2⟩
   · intro h
     simp [modItem_get, h]
   · unfold modItem
@@ -437,23 +442,34 @@ theorem rtStep_modItem (k : Key) (f : Item → Item) (n : Node)
   · unfold modItem Node.setItem
     cases n.store.get k <;> rfl
 
-theorem rtStep_modRt (k : Key) (f : Routing → Routing) (n : Node) : RtStep k n (modRt k f n) :=
-  rtStep_modItem k _ n (fun _ => ⟨rfl, rfl, rfl, rfl, id⟩)
+theorem rtStep_modRt (k : Key) (f : Routing → Routing) (n : Node)
+    (hf : ∀ r e, r.epiDst = some e → (f r).epiDst = some e) : RtStep k n (modRt k f n) :=
+  rtStep_modItem k _ n (fun it => ⟨rfl, rfl, rfl, rfl, id, hf it.rt⟩)
+
+theorem epiNotify_keeps (b : Bundle) (r : Routing) (e : Eid) (h : r.epiDst = some e) :
+    (epiNotify b r).epiDst = some e := by
+  unfold epiNotify
+  simp only [h, Option.isNone_some, Bool.false_eq_true, if_false]
+  cases b.prev with
+  | none => exact h
+  | some p => simp only; split <;> first | exact h | rfl
 
 theorem rtStep_spray (k : Key) (n : Node) (m : SprayMeta) : RtStep k n { n with spray := setMeta n.spray k m } :=
-  ⟨onlyKey_spray k n m, fun it h => ⟨it, h, rfl, rfl, rfl, rfl, id⟩, id, rfl, rfl⟩
+  ⟨onlyKey_spray k n m, fun it h => ⟨it, h, rfl, rfl, rfl, rfl, id, fun _ h => h⟩, id, rfl, rfl⟩
 
 theorem rtStep_attempts (k : Key) (n : Node) (a : List ((Nat × Nat × Nat) × Nat)) :
     RtStep k n { n with attempts := a } :=
-  ⟨onlyKey_attempts k n a, fun it h => ⟨it, h, rfl, rfl, rfl, rfl, id⟩, id, rfl, rfl⟩
+  ⟨onlyKey_attempts k n a, fun it h => ⟨it, h, rfl, rfl, rfl, rfl, id, fun _ h => h⟩, id, rfl, rfl⟩
 
 /-- Case analysis for functions that are a tree of `match`/`if` with routing-only leaves. -/
 macro "rt_auto" : tactic =>
   `(tactic| repeat' (first
       | exact RtStep.refl _ _
-      | exact rtStep_modRt _ _ _
+      | exact rtStep_modRt _ _ _ (fun _ _ h => h)
+      | exact rtStep_modRt _ _ _ (epiNotify_keeps _)
+      | exact rtStep_modRt _ _ _ (fun _ _ h => by split <;> exact h)
       | exact rtStep_spray _ _ _
-      | exact rtStep_modItem _ _ _ (fun _ => ⟨rfl, rfl, rfl, rfl, fun _ => rfl⟩)
+      | exact rtStep_modItem _ _ _ (fun _ => ⟨rfl, rfl, rfl, rfl, fun _ => rfl, fun _ h => h⟩)
       | split
       | dsimp only))
 
